@@ -505,6 +505,10 @@ func (x *Exec) evSelector(st *State, e *ast.SelectorExpr) Val {
 		cur = v
 		t = f.Type()
 	}
+	// a field of unsigned integer type holds a non-negative value
+	if isInteger(t) && isUnsigned(t) && !x.vc.bv {
+		x.assume(st, x.vc.cmp(">=", cur.T, x.vc.intLit(0), true))
+	}
 	return cur
 }
 
